@@ -383,4 +383,9 @@ Section Core.
           end
       end
     end.
+  (* a whole core program: every function definition is typed at its declared parameter type - the
+     compiler checks definitions whether or not they are called - and then the main expression *)
+  Definition infer_prog (k : nat) (e : exp) : option cty :=
+    if forallb (fun d : fdef => match infer k [(0, fst d)] (snd d) with Some _ => true | None => false end) fns
+    then infer k [] e else None.
 End Core.
